@@ -351,3 +351,19 @@ Theorem C12_electra_positions :
   firstn 5 (path_of 6 22) <> path_of 5 22.
 Proof. exact electra_leaves_under_the_checked_position. Qed.
 Print Assumptions C12_electra_positions.
+
+(* ================================================================== bootstrap as an operation of the history
+   (Start() retries Sync() - which begins with bootstrap() - on the same client object) *)
+Theorem C12_rebootstrap_forgets : forall g s cp b now max_age strict,
+  is_ok (bootstrap cp b now max_age strict) = true ->
+  process_op g s (HBootstrap cp b now max_age strict) = store_of_bootstrap b /\
+  s_next (process_op g s (HBootstrap cp b now max_age strict)) = None.
+Proof. exact rebootstrap_forgets. Qed.
+Print Assumptions C12_rebootstrap_forgets.
+
+Theorem C12_history_after_rebootstrap : forall g s0 before cp b now max_age strict msgs,
+  is_ok (bootstrap cp b now max_age strict) = true ->
+  run_ops g s0 (before ++ HBootstrap cp b now max_age strict :: map HMsg msgs) = run_wire g (store_of_bootstrap b) msgs /\
+  trust_inv g (store_of_bootstrap b) (run_wire g (store_of_bootstrap b) msgs).
+Proof. exact history_after_rebootstrap. Qed.
+Print Assumptions C12_history_after_rebootstrap.
